@@ -5,6 +5,19 @@ V = os.path.dirname(os.path.dirname(os.path.abspath(__file__)))
 ALL = [f"C{i:02d}" for i in range(1, 21)]
 
 CLAIMS = {
+ "C16": dict(
+   engine="tie-C-ds",
+   technique="Lean 4 theorems (LawfulLat for every shipped lattice type, compositional over nesting) + exhaustive pair correspondence (tie C)",
+   text="Lean 4 theorems, kernel-checked for ALL values and every nesting depth: a structure LawfulLat (partial order, join/meet are lub/glb "
+        "of the type's PartialOrd, join_mut/meet_mut leave the same value and return true exactly when the receiver changed, bounds extremal) is "
+        "proved for the model of every shipped Lattice impl (primitives, bool, Option, Box, Rc/Arc, Reverse, Dual, OrdLattice, lexicographic tuples, "
+        "Product of tuples of any arity and of arrays, Set, BoundedSet incl. its size invariant, ConstPropagation) compositionally, and the algebraic "
+        "laws of the statement (commutative, associative, idempotent, absorbing, a<=b iff join=b iff meet=a) are derived generically. The hand-written "
+        "model is tied to ascent_base on every run by evaluating every operation on every ordered pair of small-carrier values of 52 registered types "
+        "(incl. nested compositions) on both sides and diffing; the laws are also checked on the implementation's own answer table.",
+   design_ref="DESIGN.md §8 C16",
+   note="Lean kernel; axioms propext/Classical.choice/Quot.sound; model hand-written arm by arm after lattice*.rs, tied by exhaustive pair "
+        "correspondence; std's derived PartialOrd/Ord, BTreeSet and Rc/Arc::make_mut are modelled by their value semantics."),
  "C17": dict(
    engine="tie-C-ds",
    technique="Lean 4 theorems over a model of aggregators.rs + differential correspondence (tie C) against the real aggregators",
